@@ -239,7 +239,8 @@ func (its *jsonPrimitive) getTargetByPaths(paths []string) (jsonType, errors.Ord
 func (its *jsonPrimitive) getTargetFromPatch(path string) (jsonType, string, errors.OrdaError) {
 	paths := strings.Split(path, "/")
 
-	if len(paths) < 1 {
+	// a JSON pointer is either empty (the whole document, which cannot be patched as a member) or begins with '/'
+	if len(paths) < 2 {
 		return nil, "", errors.DatatypeInvalidPatch.New(its.common.L(), "incorrect path: %v", path)
 	}
 	for i, token := range paths { // RFC 6901: '~1' stands for '/', '~0' for '~'
